@@ -1298,6 +1298,30 @@ pub fn run_sock_frames(ctx: &Ctx) -> i32 {
                             break;
                         }
                         *local.entry("responses_parsed".into()).or_insert(0) += crate::sock::count_frames(&out.rx) as u64;
+                        // correlation (C11): every response echoes opcode and opaque of a request of the stream, in
+                        // request order (stat answers may repeat their request)
+                        if let Ok(rs) = wire::parse_all(&out.rx) {
+                            let mut pos = 0usize;
+                            let mut stray: Option<String> = None;
+                            for r in &rs {
+                                if r.opaque == SENTINEL && r.opcode == op::NOOP {
+                                    continue;
+                                }
+                                let from = pos.saturating_sub(1);
+                                match (from..table.len()).find(|j| table[*j].opcode == r.opcode && table[*j].opaque == r.opaque) {
+                                    Some(j) => pos = j + 1,
+                                    None => {
+                                        stray = Some(format!("response {} echoes no request of the stream at or after request #{}", r.brief(), from));
+                                        break;
+                                    }
+                                }
+                            }
+                            *local.entry("responses_correlated".into()).or_insert(0) += rs.len() as u64;
+                            if let Some(m) = stray {
+                                shared.lock().unwrap().violation(Viol::new(&["C11"], "resp-uncorrelated", m), describe(cs));
+                                break;
+                            }
+                        }
                         let mut store = vec![];
                         if let Ok(mut obs) = Cli::connect(srv.port) {
                             for k in [&b"a"[..], b"bb", b"key3", b"\0\xff\x80", b"counter", b"slip"] {
